@@ -425,6 +425,8 @@ def run(pid, tier, seed, only_case=None):
     out = common.pmap(replay_case, cases)
     fp_total = 0
     for c, r in zip(cases, out):
+        if common.impl_failure(ctx, r, c, "sep", c["what"]):
+            continue
         fp_total += r["fp_checked"]
         if r["fp_bad"]:
             raise tlc.MachineryError("harness oracle disagrees with TLC residues in case %s: %s" % (c["id"], r["fp_bad"]))
